@@ -24,6 +24,8 @@ STRICT_IO = False  # model parameter: True = code before the io_counters repair
 
 FLAG_BITS = [0o2000, 0o100, 0o1000, 0o2000000, 0o4000, 0o40000, 0o200]
 POS = [0, 1, 2 ** 31, 2 ** 63 - 1, 2 ** 64 - 1, 12345]
+# open(2) flags used by the live cases: O_APPEND O_CREAT O_TRUNC O_NONBLOCK O_NOATIME O_DSYNC O_SYNC O_NOFOLLOW O_CLOEXEC
+LIVE_BITS = [0o2000, 0o100, 0o1000, 0o4000, 0o1000000, 0o10000, 0o4010000, 0o400000, 0o2000000]
 TARGET_KINDS = ["reg", "reg", "reg", "reg_deleted_gone", "reg_deleted_present", "reg_space", "relative", "socket",
                 "pipe", "anon", "device", "dir", "nul_garbage", "missing", "under_file", "under_file_deleted", "toolong"]
 
@@ -73,6 +75,23 @@ def gen_cases(rng, tier):
             case["moved"] = {"pos": rng.choice([0, 999, 2 ** 40]), "flags": rng.choice([0o100002, 0o2001, 0o100000, 0o1])}
             case["cls"] = case["cls"] + "-moved"
         cases.append(case)
+    # live: real descriptors of the worker process over the real /proc (validates the kernel printers of Spec.v)
+    for _ in range({"quick": 40, "thorough": 600, "search": 60}[tier]):
+        n = rng.choice([1, 2, 3, 5, 8])
+        ents = []
+        for i in range(n):
+            kind = rng.choice(["reg", "reg", "reg", "reg_deleted_gone", "reg_deleted_present", "dir", "dev", "pipe", "socket"])
+            acc = rng.choice([0, 1, 2])
+            req = acc
+            for b in LIVE_BITS:
+                if rng.random() < 0.3:
+                    req |= b
+            if kind == "dir":
+                req = 0o200000 if rng.random() < 0.5 else 0      # O_DIRECTORY or plain O_RDONLY
+            if kind == "dev":
+                req &= ~0o1000                                      # no O_TRUNC on a device node
+            ents.append({"fd": 300 + i, "kind": kind, "req": req, "pos": rng.choice([0, 1, 4096, 2 ** 31, 2 ** 40, 12345])})
+        cases.append({"kind": "live", "cls": "live", "ents": ents})
     # raw / malformed fdinfo
     for _ in range(n_tab // 3):
         content = rng.choice([b"", b"pos:\n", b"pos:\t5\n", b"pos:\t5\nflags:\n", b"pos:\tx\nflags:\t02\n",
@@ -345,6 +364,14 @@ def coq_term(case):
             return "run_table_moved %s %s %s %s" % (G.lst(es), G.bo(case["alive"]), G.by(str(case["moved"]["pos"])),
                                                     G.by("%o" % case["moved"]["flags"]))
         return "run_table %s %s" % (G.lst(es), G.bo(case["alive"]))
+    if k == "live":
+        es = []
+        for e in case["ents"]:
+            raw, ex, isreg, pos = _live_target(e, BASE)
+            es.append("(Build_kfd %s %s %s %s %s %s %s StillOpen, %s)" % (
+                G.by(str(e["fd"])), G.by(raw), G.bo(ex), G.bo(isreg), G.by(str(pos)), G.by("%o" % _kernel_flags(e["req"])),
+                G.by(""), G.z(e["req"])))
+        return "run_live %s" % G.lst(es)
     if k == "rawinfo":
         ent = "(Build_fdent %s (LTarget %s false) IsReg (FContent %s))" % (
             G.by(str(case["fd"])), G.by(_paths({"kind": "reg", "fd": case["fd"]}, BASE)[0]), G.by(bytes.fromhex(case["content"])))
@@ -366,8 +393,37 @@ def coq_term(case):
     raise ValueError(k)
 
 
+def _kernel_flags(req):
+    """the harness's prediction of the fdinfo flag word (checked inside Coq against Spec.k_open_flags)"""
+    return ((req & ~0o1700 & ~0o2000000) | 0o100000) | 0o2000000
+
+
+def _live_target(e, base):
+    """(link target, exists_cut, isreg, offset the kernel will report) of a live entry"""
+    k = e["kind"]
+    f = "%s/l%d" % (base, e["fd"])
+    if k == "reg":
+        return f, True, True, e["pos"]
+    if k == "reg_deleted_gone":
+        return f + " (deleted)", False, False, e["pos"]      # after unlink the cleaned path names no file: not listed
+    if k == "reg_deleted_present":
+        return f + " (deleted)", True, True, e["pos"]
+    if k == "dir":
+        return f + ".d", True, False, 0
+    if k == "dev":
+        return "/dev/null", True, False, 0
+    if k == "pipe":
+        return "pipe:[1]", False, False, 0
+    return "socket:[1]", False, False, 0
+
+
 def coq_struct(case, raw):
     k = case["kind"]
+    if k == "live":
+        from pv.canon import unB as _u
+        if any(_u(x) != b"ok" for x in raw[3]):
+            raise RuntimeError("C14 live: the harness's flag prediction disagrees with Spec.k_open_flags: %r" % (case,))
+        return {"printed": raw[0], "model": [raw[1], None], "spec": None if raw[2] is None else [raw[2], None]}
     if k == "mode":
         spec = raw[1]
         return {"model": raw[0], "spec": None if spec is None else Val(spec)}
@@ -426,6 +482,8 @@ def impl_run(case, coq, env):
     k = case["kind"]
     if k == "mode":
         return outcome(lambda: _pslinux.file_flags_to_mode(case["flags"]), B)
+    if k == "live":
+        return _impl_live(case, coq, env, psutil)
     # fixed-length base directory so that model paths and real paths coincide after substitution
     base = BASE
     real_base = os.path.join(env["work"], "files")
@@ -562,6 +620,70 @@ def impl_run(case, coq, env):
             move_mount()
         return outcome(p.io_counters, lambda r: [r.read_count, r.write_count, r.read_bytes, r.write_bytes, r.read_chars, r.write_chars])
     raise ValueError(k)
+
+def _impl_live(case, coq, env, psutil):
+    """Open real descriptors at chosen numbers, compare the REAL /proc/self/fdinfo text with the text the specification's
+    kernel printer produced (a mismatch is a wrong transcription of the kernel format: harness error, not a verdict), then
+    ask psutil about this very process over the real /proc."""
+    import shutil, socket
+    real_base = os.path.join(env["work"], "livefiles")
+    shutil.rmtree(real_base, ignore_errors=True)
+    os.makedirs(real_base)
+    psutil.PROCFS_PATH = "/proc"
+    opened = []
+    try:
+        for idx, e in enumerate(case["ents"]):
+            raw, ex, isreg, pos = _live_target(e, real_base)
+            k, req, want = e["kind"], e["req"], e["fd"]
+            if k in ("reg", "reg_deleted_gone", "reg_deleted_present"):
+                path = raw if k == "reg_deleted_present" else raw.replace(" (deleted)", "")
+                with open(path, "wb") as f:
+                    f.write(b"0123456789")
+                fd = os.open(path, req)
+                os.lseek(fd, e["pos"], os.SEEK_SET)
+                if k == "reg_deleted_gone":
+                    os.unlink(path)
+            elif k == "dir":
+                os.makedirs(raw, exist_ok=True)
+                fd = os.open(raw, req)
+            elif k == "dev":
+                fd = os.open("/dev/null", req & ~0o100 & ~0o200)
+            elif k == "pipe":
+                fd, w = os.pipe()
+                opened.append(w)
+            else:
+                sk = socket.socket()
+                fd = sk.detach()
+            os.dup2(fd, want, inheritable=False)
+            os.close(fd)
+            opened.append(want)
+            if k in ("reg", "reg_deleted_gone", "reg_deleted_present"):
+                with open("/proc/self/fdinfo/%d" % want, "rb") as f:
+                    real = f.read()
+                printed = unB(coq["printed"][idx])
+                if not real.startswith(printed):
+                    raise RuntimeError("C14 live: the kernel prints %r for fd %d (open flags %o), Spec.k_fdinfo printed %r"
+                                       % (real[:80], want, req, printed))
+                if os.readlink("/proc/self/fd/%d" % want) != raw:
+                    raise RuntimeError("C14 live: link target %r, expected %r" % (os.readlink("/proc/self/fd/%d" % want), raw))
+        mine = {e["fd"] for e in case["ents"]}
+
+        def conv(rows):
+            return [[B(os.fsencode(r.path).replace(real_base.encode(), BASE.encode())), r.fd, r.position, B(r.mode), r.flags]
+                    for r in rows if r.fd in mine]
+        p = psutil.Process()
+        res = outcome(p.open_files, conv)
+        n = p.num_fds()
+        if n < len(mine):
+            return [res, n]
+        return [res, None]
+    finally:
+        for fd in opened:
+            try:
+                os.close(fd)
+            except OSError:
+                pass
+
 
 MANIFEST = {
     "text": "Theorems (Coq, closed under the global context): for every flag word the mode string is the one implied by access mode and O_APPEND; "
